@@ -98,7 +98,10 @@ def gen_cases(tier, seed):
             orders = [list(sub)]
             if len(sub) > 1:
                 allp = [list(p) for p in itertools.permutations(sub)]
-                orders = allp if (tier == "thorough" and len(allp) <= 24) else [list(sub), [int(x) for x in rng.permutation(sub)], list(reversed(sub))]
+                # every order of up to three modes; beyond that the sorted order, a rotation (not its own inverse), a drawn order and the
+                # reversal (thorough: all orders of four modes too)
+                orders = allp if (len(allp) <= 6 or (tier == "thorough" and len(allp) <= 24)) else \
+                    [list(sub), list(sub[1:]) + list(sub[:1]), [int(x) for x in rng.permutation(sub)], list(reversed(sub))]
             for dims in orders:
                 for how in ("dims", "exclude"):
                     if how == "dims" and not dims:
